@@ -53,6 +53,7 @@ def families(tier):
     return [
         ("lattice", lambda: (dict(phi=p) for p in phis()), 1),
         ("corpus", lambda: (dict(file=f) for f in (CORPUS_Q if q else CORPUS_T)), 1),
+        ("corpus-pdb-translated", lambda: (dict(file=f, pdb_shift=list(sh)) for f in (CORPUS_Q[:4] if q else CORPUS_T) for sh in ((-250.0, -250.0, -250.0), (1500.0, 0.0, -180.0), (0.0, 2000.0, 0.0))), 1),
         ("corpus-icodes", lambda: (dict(file=f, relabel=k) for f in (CORPUS_Q[:4] if q else CORPUS_T) for k in ("icode-pairs", "icode-triples")), 1),
     ]
 
@@ -348,7 +349,82 @@ def run_corpus(case):
     return dict(nontrivial=True, outcome="corpus", violations=out, evaluations=max(n, 1), bulk_nontrivial=max(n - 1, 0))
 
 
+def run_corpus_pdb(case):
+    """The structure written as PDB after a translation that fills the 8-column coordinate fields (x <= -100, >= 1000): chi and the backbone torsions of the
+    structure read back must be the dihedrals of the WRITTEN coordinates (reference computed from the abstract table, not from what the reader returned)."""
+    from rnapolis.parser import read_3d_structure
+    from rnapolis.tertiary import torsion_angle
+
+    out = []
+    name = case["file"]
+    t = [dict(a, model=1) for a in corpus.table(name) if a["altloc"] in (None, "A")]
+    for a in t:
+        a["altloc"] = None
+        for k, d in zip("xyz", case["pdb_shift"]):
+            a[k] = "%.3f" % (float(a[k]) + d)
+    for k, a in enumerate(t):
+        a["serial"] = k + 1
+    if not corpus.pdb_expressible(t):
+        return dict(nontrivial=False, outcome="not-pdb-expressible", violations=[])
+    path = os.path.join(scratch_dir(), "c18.pdb")
+    with open(path, "w") as f:
+        f.write(enumio.emit_pdb(t))
+    with open(path) as f:
+        r = observe(read_3d_structure, f, None)
+    if r[0] == "exc":
+        return dict(nontrivial=True, outcome="read-exc", violations=[viol("corpus-pdb:read:" + r[1], "reading the translated PDB text raised " + r[2])])
+    written = {}
+    for a in t:
+        written.setdefault((a["chain"], a["resseq"], a["icode"]), {})[a["name"]] = np.array([float(a["x"]), float(a["y"]), float(a["z"])])
+    n = bad = 0
+    first = None
+    residues = r[1].residues
+    for i, res in enumerate(residues):
+        w = written.get((res.chain, res.number, res.icode))
+        if w is None:
+            continue
+        letter = res.one_letter_name.upper()
+        base = ("N9", "C4") if letter in "AG" else (("N1", "C2") if letter in "CUT" else None)
+        if base and all(x in w for x in ("O4'", "C1'") + base):
+            ref = rt.torsion(*[w[x] for x in ("O4'", "C1'") + base])
+            c = observe(lambda: res.chi)
+            n += 1
+            if c[0] == "exc" or math.isnan(c[1]) or rt.angdiff(c[1], ref) > 1e-6:
+                bad += 1
+                first = first or "chi of %s: %s, the written coordinates give %.6f" % (res.full_name, c[1] if c[0] == "ok" else c[2], ref)
+        for an, spec in BACKBONE.items():
+            pts, atoms = [], []
+            for nm, off in spec:
+                j = i + off
+                if not (0 <= j < len(residues)) or residues[j].chain != res.chain:
+                    pts = None
+                    break
+                wj = written.get((residues[j].chain, residues[j].number, residues[j].icode), {})
+                aj = residues[j].find_atom(nm)
+                if nm not in wj or aj is None:
+                    pts = None
+                    break
+                pts.append(wj[nm])
+                atoms.append(aj)
+            if not pts:
+                continue
+            ref = rt.torsion(*pts)
+            if abs(math.sin(ref)) < 1e-6:
+                continue
+            v1 = observe(torsion_angle, *atoms)
+            n += 1
+            if v1[0] == "exc" or rt.angdiff(float(v1[1]), ref) > 1e-6:
+                bad += 1
+                first = first or "%s of %s: %s, the written coordinates give %.6f" % (an, res.full_name, v1[1] if v1[0] == "ok" else v1[2], ref)
+    if bad:
+        out.append(viol("corpus-pdb:torsion-differs-from-written-coordinates", "%s translated by %s and written as PDB: %d of %d torsions differ from the dihedrals of the written coordinates, e.g. %s"
+                        % (name, case["pdb_shift"], bad, n, first)))
+    return dict(nontrivial=True, outcome="corpus-pdb", violations=out, evaluations=max(n, 1), bulk_nontrivial=max(n - 1, 0))
+
+
 def run_case(case):
     if "phi" in case:
         return run_lattice(case)
+    if "pdb_shift" in case:
+        return run_corpus_pdb(case)
     return run_corpus(case)
